@@ -8,7 +8,7 @@ R-SORT-4 modelcheck: guards dominate the core, rejections are TypeError
 import ast
 
 from ..program import AnalysisError, Inconclusive, ClassInfo, ExtClass
-from ..values import (Const, Sym, CRef, FRef, MRef, Bound, Obj, Tup, App,
+from ..values import (Const, Sym, CRef, FRef, MRef, Bound, Obj, Tup, App, Coll,
                       New, Raise, walk)
 from ..interp import Interp, Hooks
 from ..formulas import (LANGS, signatures, FormulaHooks, new_instance)
@@ -204,6 +204,14 @@ def _is_state_summary(prog, ci, hooks):
         if isinstance(v, Raise):
             return 'raises'
         vals.append((v, p))
+    # the children: what subformulas() returns
+    children = None
+    sub = prog.method(ci, 'subformulas')
+    if sub is not None:
+        rs = [v for (_, v) in I.call_function(FRef(sub), [self_v], [],
+                                              I.new_path(), sub.node)]
+        if len(rs) == 1:
+            children = rs[0]
     if all(isinstance(v, Const) for v, _ in vals):
         s = set(v.v for v, _ in vals)
         if len(s) == 1:
@@ -213,6 +221,19 @@ def _is_state_summary(prog, ci, hooks):
             vals[0][0].op == 'mcall' and \
             vals[0][0].args[1] == Const('is_a_state_formula'):
         return 'children'
+    # all(child.is_a_state_formula() for child in children)
+    if len(vals) == 1 and isinstance(vals[0][0], App) and \
+            vals[0][0].op == 'all' and len(vals[0][0].args) == 1 and \
+            isinstance(vals[0][0].args[0], Coll):
+        parts = vals[0][0].args[0].parts
+        if len(parts) == 1 and parts[0].kind == 'elem' and \
+                not parts[0].conds and len(parts[0].gens) == 1 and \
+                isinstance(parts[0].val, App) and \
+                parts[0].val.op == 'mcall' and \
+                parts[0].val.args[0] == parts[0].gens[0][0] and \
+                parts[0].gens[0][1] == children and \
+                parts[0].val.args[1] == Const('is_a_state_formula'):
+            return 'children'
     # Or/And/Imply: False inside the loop when a child is not a state
     # formula, True after the loop
     falses = [p for v, p in vals if v == Const(False)]
@@ -220,7 +241,8 @@ def _is_state_summary(prog, ci, hooks):
     if len(falses) + len(trues) == len(vals) and trues and falses:
         def _exit_on_nonstate(p):
             for (c, pol) in p.pc:
-                if pol and isinstance(c, App) and c.op == 'exists':
+                if pol and isinstance(c, App) and c.op == 'exists' and \
+                        c.args[1] == children:
                     for cp in c.args[2].items:
                         cc, cpol = cp.items
                         if isinstance(cc, App) and cc.op == 'mcall' and \
